@@ -244,6 +244,9 @@ func (s *Properties) Merge(other *Properties) {
 	}
 	for otherKey, otherValue := range other.Map {
 		s.Map[otherKey] = otherValue
+
+		// The key is present again: it can no longer be tracked as deleted
+		delete(s.Deleted, otherKey)
 	}
 
 	if len(other.Modified) > 0 && s.Modified == nil {
